@@ -23,6 +23,7 @@ import (
 	"encoding/json"
 	"fmt"
 	"os"
+	"os/exec"
 	"path/filepath"
 	"regexp"
 	"runtime/debug"
@@ -422,6 +423,51 @@ func c12Do(t *testing.T, root string, idx int, tp *c12Template, b c12Build, plan
 	return r
 }
 
+// TestVerifC12Child is the body of the sub-process runs: one real build that the zzfs shim kills with os.Exit(137)
+// (ZZFS_PLAN kill_mode "exit") before its k-th mutation; the operation log survives in ZZFS_LOG.
+func TestVerifC12Child(t *testing.T) {
+	dir := os.Getenv("C12_CHILD_DIR")
+	if dir == "" {
+		t.Skip("helper of TestVerifC12")
+	}
+	var b c12Build
+	if err := json.Unmarshal([]byte(os.Getenv("C12_CHILD_BUILD")), &b); err != nil {
+		t.Fatal(err)
+	}
+	fmt.Println("C12CHILD-RESULT", c12Run(dir, b))
+}
+
+// c12DoExit = c12Do with a REAL kill: the build runs in a child process that dies at the kill point.
+func c12DoExit(t *testing.T, root string, idx int, tp *c12Template, b c12Build, k int) c12RunResult {
+	dir := filepath.Join(root, fmt.Sprintf("xrun%d", idx))
+	c12CopyDir(t, tp.dir, dir)
+	logf := dir + ".zzfslog"
+	plan, _ := json.Marshal(zzfs.Plan{Kill: &zzfs.Sel{Seq: k}, KillMode: "exit"})
+	bj, _ := json.Marshal(b)
+	cmd := exec.Command(os.Args[0], "-test.run", "^TestVerifC12Child$")
+	cmd.Env = append(os.Environ(), "C12_CHILD_DIR="+dir, "C12_CHILD_BUILD="+string(bj), "ZZFS_PLAN="+string(plan), "ZZFS_LOG="+logf, "VERIF_OUT="+os.DevNull)
+	out, err := cmd.CombinedOutput()
+	ee, ok := err.(*exec.ExitError)
+	if !ok || ee.ExitCode() != 137 {
+		t.Fatalf("child build was not killed at op %d: err=%v out=%s", k, err, out)
+	}
+	var lg []zzfs.Op
+	if lb, err := os.ReadFile(logf); err == nil {
+		for _, l := range strings.Split(string(lb), "\n") {
+			var o zzfs.Op
+			if l != "" && json.Unmarshal([]byte(l), &o) == nil {
+				lg = append(lg, o)
+			}
+		}
+	}
+	r := c12RunResult{log: lg}
+	r.ops, r.kind = c12Ops(lg)
+	r.obs = c12Observe(t, dir, tp.oldIDs, tp.oldMeta)
+	os.RemoveAll(dir)
+	os.Remove(logf)
+	return r
+}
+
 // c12Window classifies where in Finish's install sequence a run stopped, from its own executed log.
 func c12Window(r c12RunResult, nArtifacts int, refDeletes int) string {
 	ren, del := 0, 0
@@ -635,18 +681,27 @@ func TestVerifC12(t *testing.T) {
 				"old_view": oldObs.rows, "new_view": ref.obs.rows, "broken": rr.obs.broken, "finish_error": fmt.Sprint(rr.err),
 				"how": "props/C12/NOTES.md (replay): build the old index, run the new build under translator/fsinstrument with ZZFS_PLAN kill/fail at op_index, load the directory"}
 		}
-		// ---- kill before every mutation
+		// ---- kill before every mutation: in-process freeze (all scenarios) and a real os.Exit kill of a child process
+		// (first scenarios in the quick tier, all in thorough)
+		exitKill := si < 2 || vfTier() == "thorough"
 		for k := 0; k < L; k++ {
-			rr := c12Do(t, sroot, 1+k, tp, sc.New, zzfs.Plan{Kill: &zzfs.Sel{Seq: k}, KillMode: "freeze"})
-			emit("kill", k, rr, true)
-			win := c12Window(rr, nArtifacts, refDel)
-			if len(rr.obs.broken) > 0 {
-				vfOracleFail("truncated-or-unloadable-shard-visible:"+win, "after a kill a visible *.zoekt does not load: "+strings.Join(rr.obs.broken, "; "), replay("kill", k, rr))
+			runs := []c12RunResult{c12Do(t, sroot, 1+k, tp, sc.New, zzfs.Plan{Kill: &zzfs.Sel{Seq: k}, KillMode: "freeze"})}
+			kinds := []string{"kill"}
+			if exitKill {
+				runs = append(runs, c12DoExit(t, sroot, 1+k, tp, sc.New, k))
+				kinds = append(kinds, "kill-exit")
 			}
-			if oldObs.hasRepo && !rr.obs.hasRepo {
-				vfOracleFail("repo-missing:"+win, "after a kill the repository is not served at all although it was indexed before", replay("kill", k, rr))
-			} else if rr.obs.digest != oldObs.digest && rr.obs.digest != newDigest {
-				vfOracleFail("mix:"+win, "after a kill the searcher sees neither the old nor the new index ("+win+")", replay("kill", k, rr))
+			for ri, rr := range runs {
+				emit(kinds[ri], k, rr, true)
+				win := c12Window(rr, nArtifacts, refDel)
+				if len(rr.obs.broken) > 0 {
+					vfOracleFail("truncated-or-unloadable-shard-visible:"+win, "after a kill a visible *.zoekt does not load: "+strings.Join(rr.obs.broken, "; "), replay(kinds[ri], k, rr))
+				}
+				if oldObs.hasRepo && !rr.obs.hasRepo {
+					vfOracleFail("repo-missing:"+win, "after a kill the repository is not served at all although it was indexed before", replay(kinds[ri], k, rr))
+				} else if rr.obs.digest != oldObs.digest && rr.obs.digest != newDigest {
+					vfOracleFail("mix:"+win, "after a kill the searcher sees neither the old nor the new index ("+win+")", replay(kinds[ri], k, rr))
+				}
 			}
 		}
 		// ---- every single mutation failing
